@@ -17,7 +17,6 @@ static int re_groupcount(char *s)
 {
 	int n = 0;	/* number of groups */
 	int brk = 0;	/* one if inside a bracket expression */
-	int brk2 = 0;	/* nested bracket type: ':', '*', or '=' */
 	while (*s) {
 		if (!brk) {
 			if (s[0] == '(')
@@ -32,16 +31,13 @@ static int re_groupcount(char *s)
 				brk = 1;
 			}
 		} else {
-			if (!brk2) {
-				if (s[0] == ']')
-					brk = 0;
-				if (s[0] == '[' && (s[1] == ':' || s[1] == '*' || s[1] == '=')) {
-					brk2 = s[1];
+			if (s[0] == '[' && (s[1] == ':' || s[1] == '=')) {
+				while (s[0] && s[0] != ']')	/* as regex.c does */
 					s++;
-				}
-			} else if (s[0] == brk2 && s[1] == ']') {
-				brk2 = 0;
-				s++;
+				if (!s[0])
+					break;
+			} else if (s[0] == ']') {
+				brk = 0;
 			}
 		}
 		s++;
